@@ -393,7 +393,7 @@ Section HeapOps.
     | ODeleteMin => True
     | ODecreaseKey id x => In id (ids E (root E h)) /\
                            forall old, In (id, old) (elems E (root E h)) -> lt old x = false
-    | OMerge rhs => hinv E rhs /\ forall i, In i (ids E (root E h)) -> ~ In i (ids E (root E rhs))
+    | OMerge rhs => hinv E lt rhs /\ forall i, In i (ids E (root E h)) -> ~ In i (ids E (root E rhs))
     end.
 
   Fixpoint run (h : heap E) (ops : list op) : heap E :=
@@ -401,30 +401,30 @@ Section HeapOps.
   Fixpoint ops_ok (h : heap E) (ops : list op) : Prop :=
     match ops with [] => True | o :: r => op_ok h o /\ ops_ok (step h o) r end.
 
-  Lemma hinv_empty : hinv E (heap_empty E).
+  Lemma hinv_empty : hinv E lt (heap_empty E).
   Proof. split; simpl; auto. constructor. Qed.
 
-  Lemma step_hinv h o : hinv E h -> op_ok h o -> hinv E (step h o).
+  Lemma step_hinv h o : hinv E lt h -> op_ok h o -> hinv E lt (step h o).
   Proof.
     intros Hh Ho. destruct o as [id x | | id x | rhs]; simpl in *.
-    - apply (insert_spec E lt lt_asym nlt_trans id x h Hh Ho).
+    - apply (insert_spec E lt lt_asym id x h Hh Ho).
     - destruct (root E h) as [|i x l s] eqn:Er.
       + unfold delete_min. rewrite Er. exact Hh.
-      + destruct (delete_min_spec E lt lt_asym nlt_trans h Hh i x l s Er) as (h' & -> & Hh' & _). exact Hh'.
+      + destruct (delete_min_spec E lt lt_asym h Hh i x l s Er) as (h' & -> & Hh' & _). exact Hh'.
     - destruct Ho as [H1 H2]. apply (decrease_key_spec E lt lt_asym nlt_trans id x h Hh H1 H2).
-    - destruct Ho as [H1 H2]. apply (merge_spec E lt lt_asym nlt_trans h rhs Hh H1 H2).
+    - destruct Ho as [H1 H2]. apply (merge_spec E lt lt_asym h rhs Hh H1 H2).
   Qed.
 
   (* heap_min: after ANY sequence of operations (meeting the callers' obligations) the heap is well formed,
      findMin / extractMin return an element that no stored element is less than, and extractMin removes exactly
      that one element *)
-  Theorem heap_min : forall ops h, hinv E h -> ops_ok h ops ->
+  Theorem heap_min : forall ops h, hinv E lt h -> ops_ok h ops ->
     let h' := run h ops in
-    hinv E h' /\
+    hinv E lt h' /\
     (forall x, find_min E h' = Some x -> forall i y, In (i, y) (elems E (root E h')) -> lt y x = false) /\
     (find_min E h' = None <-> elems E (root E h') = []) /\
     (forall x h'', heap_extract_min E lt h' = Some (x, h'') ->
-        hinv E h'' /\ (forall i y, In (i, y) (elems E (root E h')) -> lt y x = false) /\
+        hinv E lt h'' /\ (forall i y, In (i, y) (elems E (root E h')) -> lt y x = false) /\
         exists i, Permutation (elems E (root E h')) ((i, x) :: elems E (root E h''))).
   Proof.
     induction ops as [|o r IH]; intros h Hh Hok; cbn [run].
@@ -437,7 +437,7 @@ Section HeapOps.
 
   Corollary heap_min_from_empty ops : ops_ok (heap_empty E) ops ->
     let h' := run (heap_empty E) ops in
-    hinv E h' /\ forall x, find_min E h' = Some x -> forall i y, In (i, y) (elems E (root E h')) -> lt y x = false.
+    hinv E lt h' /\ forall x, find_min E h' = Some x -> forall i y, In (i, y) (elems E (root E h')) -> lt y x = false.
   Proof. intros H. destruct (heap_min ops _ hinv_empty H) as (A & B & _). split; auto. Qed.
 End HeapOps.
 
@@ -457,11 +457,11 @@ Definition ex_ops : list (op nat) :=
   [OInsert 0 5; OInsert 1 3; OInsert 2 5; OInsert 3 4; OInsert 4 9; ODeleteMin; ODecreaseKey 4 2;
    OMerge ex_rhs; ODeleteMin; OInsert 5 7; ODecreaseKey 2 0].
 
-Example ex_rhs_hinv : hinv nat ex_rhs.
+Example ex_rhs_hinv : hinv nat Nat.ltb ex_rhs.
 Proof.
   unfold ex_rhs.
-  apply (insert_spec nat Nat.ltb ltb_asym nltb_trans); [|vm_compute; intuition lia].
-  apply (insert_spec nat Nat.ltb ltb_asym nltb_trans); [apply hinv_empty | simpl; tauto].
+  apply (insert_spec nat Nat.ltb ltb_asym); [|vm_compute; intuition lia].
+  apply (insert_spec nat Nat.ltb ltb_asym); [apply (hinv_empty nat Nat.ltb) | simpl; tauto].
 Qed.
 
 Example ex_ops_ok : ops_ok nat Nat.ltb (heap_empty nat) ex_ops.
